@@ -529,9 +529,12 @@ func (r *Renter) Fund(c Contract, deposits []proto4.AccountDeposit, s Script, t 
 			total, o = total.AddWithOverflow(d.Amount)
 			overflow = overflow || o
 		}
+		// on overflow `total` is the sum modulo 2^128: exactly what a host that
+		// forgets to check the carry would compute, so the adversarial renter
+		// signs the revision for that wrapped total
 		rev, usage, err := proto4.ReviseForFundAccounts(c.Revision, total)
-		if err != nil || overflow {
-			out.Unpayable = true
+		out.Unpayable = err != nil || overflow
+		if err != nil {
 			rev = c.Revision
 			rev.RevisionNumber++
 			usage = proto4.Usage{}
@@ -559,7 +562,10 @@ type ReplenishResult struct {
 	Resp    proto4.RPCReplenishAccountsResponse
 	GotResp bool
 	// NoOp: the host answered that nothing needs depositing; no revision.
-	NoOp      bool
+	NoOp bool
+	// Overflow: the deposits the host announced do not fit 128 bits; the
+	// renter signed for their sum modulo 2^128.
+	Overflow  bool
 	Revision  types.V2FileContract
 	Usage     proto4.Usage
 	RenterSig types.Signature
@@ -593,8 +599,10 @@ func (r *Renter) Replenish(c Contract, pools bool, keys []proto4.Account, target
 		var total types.Currency
 		for _, d := range out.Resp.Deposits {
 			var o bool
+			// an overflowing sum wraps: the renter goes on with the wrapped
+			// total, which is what a host that drops the carry would charge
 			if total, o = total.AddWithOverflow(d.Amount); o {
-				return errors.New("renter: host deposits overflow")
+				out.Overflow = true
 			}
 		}
 		if total.IsZero() {
